@@ -10,6 +10,7 @@
    proved here: it needs verify(sign(m)) = true (ecdsa) and the size premise, see known finding "too many inputs". *)
 From Coq Require Import NArith List.
 From SkV Require Import WalletModel WalletProofs.
+From SkV Require WalletReorgProofs.
 Import ListNotations.
 Open Scope N_scope.
 
@@ -45,6 +46,22 @@ Theorem C14_sequences : forall used h reqs,
      nth_error (run_spends used h reqs) j = Some (Some sp2) -> In r (sp_inputs sp1) -> ~ In r (sp_inputs sp2)).
 Proof. exact spend_sequences. Qed.
 
+(* the ledger view may be a different one at every request (a spend confirmed, un-confirmed again by a fork switch, an
+   older state revisited): the wallet's record persists and no reference is ever selected twice *)
+Theorem C14_sequences_across_head_changes : forall used reqs,
+  (forall i sp r, nth_error (WalletReorgProofs.run_spends_at used reqs) i = Some (Some sp) -> In r (sp_inputs sp) -> ~ In r used) /\
+  (forall i j sp1 sp2 r, i <> j -> nth_error (WalletReorgProofs.run_spends_at used reqs) i = Some (Some sp1) ->
+     nth_error (WalletReorgProofs.run_spends_at used reqs) j = Some (Some sp2) -> In r (sp_inputs sp1) -> ~ In r (sp_inputs sp2)).
+Proof. exact WalletReorgProofs.spend_sequences_across_head_changes. Qed.
+
+(* a record pruned to what the current head still lists re-spends an input after a fork switch *)
+Theorem C14_pruned_record_reuses_after_fork_switch_refuted : exists h1 h2 h3 sp1 u1 sp2 u2 sp3 u3 r,
+  WalletReorgProofs.create_spend_pruning [] h1 5 0 = Some (sp1, u1) /\
+  WalletReorgProofs.create_spend_pruning u1 h2 5 0 = Some (sp2, u2) /\
+  WalletReorgProofs.create_spend_pruning u2 h3 5 0 = Some (sp3, u3) /\
+  In r (sp_inputs sp1) /\ In r (sp_inputs sp3).
+Proof. exact WalletReorgProofs.pruning_reuses_after_fork_switch_refuted. Qed.
+
 Theorem C14_prefix_poisons_refuted : exists used h v1 f1 v2 f2,
   fst (create_spend_prefix used h v1 f1) = None /\ total (avail used h) >= v2 + f2 /\
   (let used' := snd (create_spend_prefix used h v1 f1) in create_spend used' h v2 f2 = None).
@@ -56,3 +73,5 @@ Print Assumptions C14_failure_frame.
 Print Assumptions C14_affordable_after_failed_attempt.
 Print Assumptions C14_sequences.
 Print Assumptions C14_prefix_poisons_refuted.
+Print Assumptions C14_sequences_across_head_changes.
+Print Assumptions C14_pruned_record_reuses_after_fork_switch_refuted.
